@@ -128,6 +128,19 @@ def opGraph : P String := do
   | none => pure "nan"
   | some G => pure (fCoo G)
 
+/-- the exact neighbour stage: `exactstage <hasThr 0/1> <thr> <k> <n> <n*n distances>` →
+    `n*k` indices (`-1` = skipped) followed by `n*k` distances (`inf` = skipped). -/
+def opExactStage : P String := do
+  let hasThr ← pNat
+  let thr ← pFloat
+  let k ← pNat
+  let n ← pNat
+  let D ← pMat n n pFloat
+  let (idx, ds) := KnnStage.exactStage (if hasThr == 1 then some thr else none) k D
+  let fi := idx.flatten.map (fun o => match o with | some j => toString j | none => "-1")
+  let fd := ds.flatten.map (fun o => match o with | some d => fb d | none => "inf")
+  pure (join (fi ++ fd))
+
 /-- `symmetrize <r> COO` -/
 def opSym : P String := do
   let r ← pFloat
@@ -501,6 +514,7 @@ def dispatch (op : String) : P String :=
   | "members" => opMembers
   | "graph" => opGraph
   | "sym" => opSym
+  | "exactstage" => opExactStage
   | "relations" => opRelations
   | "api" => opApi
   | "metric" => opMetric
